@@ -39,3 +39,25 @@ def match(findings, violation, spec):
             continue
         return f
     return None
+
+
+@predicate
+def cyclic_fractional_multiplicity_bound(violation, spec):
+    """A model for graphs with cycles, float weights, and some positive flow value below 1:
+    the per-edge repetition bounds the walk models derive from flow values are then fractional."""
+    w = spec.get("world", {})
+    cyc = ("MinFlowDecompCycles", "kFlowDecompCycles", "kMinPathErrorCycles", "kLeastAbsErrorsCycles", "kPathCoverCycles", "MinPathCoverCycles")
+    if w.get("class") not in cyc:
+        return False
+    if w.get("args", {}).get("weight_type") != "float":
+        return False
+    g = w.get("graph") or {}
+    vals = [e[2] for e in g.get("edges", []) if isinstance(e[2], (int, float))]
+    vals += [x[1] for x in g.get("node_weights", []) if isinstance(x[1], (int, float))]
+    return any(0 < v < 1 for v in vals)
+
+
+@predicate
+def cyclic_error_model_with_ignored_elements(violation, spec):
+    w = spec.get("world", {})
+    return w.get("class") in ("kMinPathErrorCycles", "kLeastAbsErrorsCycles") and bool(w.get("args", {}).get("elements_to_ignore"))
